@@ -33,7 +33,7 @@ def expr_texts(terms, skip):
     for t in walk_terms(terms):
         if t is skip:
             continue
-        for fld in ("count", "value", "cond", "over", "lo", "hi", "index", "width", "nbytes", "elem"):
+        for fld in ("count", "value", "cond", "over", "lo", "hi", "index", "width", "nbytes", "elem", "length", "dtype", "fill"):
             v = getattr(t, fld, None)
             if isinstance(v, ast.AST):
                 out.append(norm(v))
